@@ -10,6 +10,7 @@ import PysersicModel.Driver.Validate
 import PysersicModel.Driver.Results
 import PysersicModel.Driver.Loss
 import PysersicModel.Driver.Render
+import PysersicModel.Driver.Prob
 
 open Pysersic
 
@@ -36,6 +37,11 @@ def dispatch (line : String) : String :=
     | "decomp" => Driver.decompCmd false args
     | "decompd" => Driver.decompCmd true args
     | "sigpsf" => Driver.sigPsfCmd args
+    | "skyimg" => Driver.skyImgCmd args
+    | "skysites" => Driver.skySitesCmd args
+    | "helper" => Driver.helperCmd args
+    | "genprior" => Driver.genPriorCmd args
+    | "multiprior" => Driver.multiPriorCmd args
     | _ => "bad-op " ++ cmd
 
 partial def loop (h : IO.FS.Stream) (out : IO.FS.Stream) : IO Unit := do
